@@ -82,7 +82,7 @@ func TestRegressionRestartWhileTaskSubmits(t *testing.T) {
 func TestSubmitShutdownRace(t *testing.T) {
 	const check = "submit_shutdown_race"
 	stats.Rule(check, "free-running trials on a fresh pool (1-2 workers): variant A: a goroutine calls Submit while the test calls Shutdown; variant B: a running task submits a child while the test calls Shutdown; then ShutdownComplete.Wait must return (ctl.HangTimeout), the counter must be 0 and the task must have run iff the counter accounted for it; the interleaving is the scheduler's")
-	trials := stats.Scale(3000, 4000) // per process; the thorough tier runs 16 processes
+	trials := stats.Scale(20000, 50000) // per process; the thorough tier runs 16 processes
 	for i := 0; i < trials; i++ {
 		wp := workerpool.New(fmt.Sprintf("race%d", i), workerpool.WithWorkerCount(1+i%2)).Start()
 		var inc, ran atomic.Int64
